@@ -134,10 +134,25 @@ pub fn gen_hierarchy_m(r: &mut Rng) -> (MProgram, Vec<MGoal>) {
             let t2 = r.pick(&p.traits).clone();
             hyps.push(mk(r, &p, &t2, ph1.clone()));
         }
-        let with = MGoal::Forall(1, 2, Box::new(MGoal::If(hyps, Box::new(MGoal::Pred(g.clone())))));
-        let without = MGoal::Forall(1, 2, Box::new(MGoal::Pred(g)));
+        let with = MGoal::Forall(1, 2, Box::new(MGoal::If(hyps.clone(), Box::new(MGoal::Pred(g.clone())))));
+        let without = MGoal::Forall(1, 2, Box::new(MGoal::Pred(g.clone())));
         goals.push(with);
         goals.push(without);
+        // compound G: the hypothesis must be visible to its own conjunct only, whichever conjunct is written first
+        if r.chance(50) {
+            let mut conj = vec![MGoal::Pred(g.clone()), MGoal::If(hyps.clone(), Box::new(MGoal::Pred(g.clone())))];
+            if r.chance(50) {
+                conj.swap(0, 1);
+            }
+            let body = MGoal::And(conj);
+            goals.push(if r.chance(40) {
+                let t3 = r.pick(&p.traits).clone();
+                let outer = mk(r, &p, &t3, ph1.clone());
+                MGoal::Forall(1, 2, Box::new(MGoal::If(vec![outer], Box::new(body))))
+            } else {
+                MGoal::Forall(1, 2, Box::new(body))
+            });
+        }
     }
     (p, goals)
 }
